@@ -34,13 +34,13 @@ Lemma wait_n_nonneg L st t n st' d : wait_n L st t n = (st', WSleep d) -> 0 <= d
 Proof.
   unfold wait_n, reserve. destruct ((lburst L <? n) && negb (linf L)); [discriminate|].
   destruct (linf L).
-  - cbn. destruct (inf_duration <=? 0) eqn:E; [discriminate|]. intro H; inversion H; lia.
+  - cbn. intro H; inversion H; lia.
   - set (tk := advance L st t - n * unit L).
     set (w := if tk <? 0 then duration_from_tokens L (- tk) else 0).
     destruct ((n <=? lburst L) && (w <=? inf_duration)); cbn.
-    + destruct (Z.leb_spec inf_duration w); [discriminate|]. intro H; inversion H; subst d.
+    + destruct (Z.leb_spec inf_duration w) as [Hw|Hw]; [discriminate|]. intro H; inversion H; subst d.
       unfold w, duration_from_tokens. destruct (Z.ltb_spec tk 0) as [Hn|Hn]; [|lia].
-      destruct (Z.leb_spec (lp L) 0); [unfold inf_duration; lia|]. apply Z.div_pos; lia.
+      destruct (Z.leb_spec (lp L) 0) as [Hz|Hz]; [unfold inf_duration; lia|]. apply Z.div_pos; lia.
     + discriminate.
 Qed.
 
@@ -61,16 +61,18 @@ Proof.
   set (w := if tk <? 0 then duration_from_tokens L (- tk) else 0).
   assert (Hnu : 0 <= n * unit L) by (apply Z.mul_nonneg_nonneg; lia).
   assert (Hinv' : linv L t0 {| tok := tk; last := t |} (R + n)).
-  { split; cbn [tok last]; [unfold tk; lia|]. right. split; [exact Ht0|]. unfold tk.
-    destruct Hled as [HR|[Ht0l Hl]]; [subst R; nia|nia]. }
+  { clear w. subst tk. split; cbn [tok last]; [lia|]. right. split; [exact Ht0|].
+    assert (Hnn : 0 <= lp L * (t - t0)) by (apply Z.mul_nonneg_nonneg; lia).
+    destruct Hled as [HR|[Ht0l Hl]]; [subst R; lia|lia]. }
   destruct ((n <=? lburst L) && (w <=? inf_duration)) eqn:Eok; cbn [negb].
   - destruct (Z.leb_spec inf_duration w) as [Hw|Hw]; intro H; inversion H; subst; [exact Hinv'|].
     split; [exact Hinv'|]. destruct Hinv' as [_ [HR|[_ Hl]]]; cbn [tok last] in *.
-    + assert (R = 0 /\ n = 0) as [-> ->] by lia. cbn. unfold w in *.
-      assert (0 <= if tk <? 0 then duration_from_tokens L (- tk) else 0).
+    + rewrite HR. unfold w in *.
+      assert (Hw0 : 0 <= if tk <? 0 then duration_from_tokens L (- tk) else 0).
       { destruct (Z.ltb_spec tk 0); [|lia]. unfold duration_from_tokens.
         destruct (Z.leb_spec (lp L) 0); [unfold inf_duration; lia|apply Z.div_pos; lia]. }
-      nia.
+      assert (0 <= lp L * (t + (if tk <? 0 then duration_from_tokens L (- tk) else 0) - t0 + 1)) by (apply Z.mul_nonneg_nonneg; lia).
+      assert (0 <= lburst L * unit L) by (apply Z.mul_nonneg_nonneg; lia). lia.
     + unfold w in *. destruct (Z.ltb_spec tk 0) as [Hneg|Hpos].
       * unfold duration_from_tokens in *. destruct (Z.leb_spec (lp L) 0) as [Hz|Hz]; [lia|].
         pose proof (Z.mul_succ_div_gt (- tk) (lp L) Hz) as Hdiv.
@@ -167,9 +169,9 @@ Proof.
   pose proof (wait_n_step L t0 st R t batch st' r Hok Hinf Hinv Hlast Ht0 Hb E) as Hs.
   rewrite res_sum_app, back_ev_res.
   destruct r; cbn [res_sum fold_right res_n]; rewrite ?limid_eqb_refl.
-  - subst st'. replace (R + (0 + 0)) with R by lia. repeat split; try lia; apply Hinv.
-  - replace (R + (0 + (batch + 0))) with (R + batch) by lia. repeat split; try lia; apply Hs.
-  - replace (R + (0 + (batch + 0))) with (R + batch) by lia. destruct Hs as [H1 H2]. repeat split; try lia; try apply H1. exact H2.
+  - subst st'. replace (R + (0 + 0)) with R by lia. split; [exact Hinv|split; [lia|exact I]].
+  - replace (R + (0 + (batch + 0))) with (R + batch) by lia. split; [exact Hs|split; [lia|exact I]].
+  - replace (R + (0 + (batch + 0))) with (R + batch) by lia. destruct Hs as [H1 H2]. split; [exact H1|split; [lia|exact H2]].
 Qed.
 
 (* ------------------------------------------------------------------ world invariant *)
@@ -237,16 +239,16 @@ Proof.
     intro H; inversion H; subst w' e. clear H.
     destruct (Ph1 [EErr c] Hnb) as (A & B & _).
     unfold WI. rewrite !res_sum_app, !all_pulled_app. cbn [res_sum all_pulled fold_right res_n all_len].
-    rewrite Hall1. repeat split.
-    + destruct id; cbn [lim_state wtotal wlocal]; replace (res_sum _ e1 + (0 + 0)) with (res_sum _ e1) by lia; exact A.
+    rewrite Hall1. split; [|split; [|split]].
+    + replace (res_sum id tr + (res_sum id e1 + (0 + 0))) with (res_sum id tr + res_sum id e1) by lia. destruct id; exact A.
     + lia.
     + lia.
     + intros T HT. rewrite !pulled_app, Hp1. cbn. specialize (Hbound T HT). lia.
   - intro H; inversion H; subst w' e. clear H.
     destruct (Ph1 [EBlock c] Hnb) as (A & B & _).
     unfold WI. rewrite !res_sum_app, !all_pulled_app. cbn [res_sum all_pulled fold_right res_n all_len].
-    rewrite Hall1. repeat split.
-    + destruct id; cbn [lim_state wtotal wlocal]; replace (res_sum _ e1 + (0 + 0)) with (res_sum _ e1) by lia; exact A.
+    rewrite Hall1. split; [|split; [|split]].
+    + replace (res_sum id tr + (res_sum id e1 + (0 + 0))) with (res_sum id tr + res_sum id e1) by lia. destruct id; exact A.
     + lia.
     + lia.
     + intros T HT. rewrite !pulled_app, Hp1. cbn. specialize (Hbound T HT). lia.
@@ -288,7 +290,7 @@ Proof.
     + intro H; inversion H; subst w' e. clear H.
       destruct (Ph2 [EErr c] Hnb) as (A & B1 & B2 & _).
       unfold WI. rewrite !res_sum_app, !all_pulled_app. cbn [res_sum all_pulled fold_right res_n all_len].
-      rewrite Hall1, Hall2. repeat split.
+      rewrite Hall1, Hall2. split; [|split; [|split]].
       * replace (res_sum id tr + (res_sum id e1 + (res_sum id e2 + (0 + 0)))) with (res_sum id tr + res_sum id e1 + res_sum id e2) by lia. exact A.
       * lia.
       * lia.
@@ -296,7 +298,7 @@ Proof.
     + intro H; inversion H; subst w' e. clear H.
       destruct (Ph2 [EBlock c] Hnb) as (A & B1 & B2 & _).
       unfold WI. rewrite !res_sum_app, !all_pulled_app. cbn [res_sum all_pulled fold_right res_n all_len].
-      rewrite Hall1, Hall2. repeat split.
+      rewrite Hall1, Hall2. split; [|split; [|split]].
       * replace (res_sum id tr + (res_sum id e1 + (res_sum id e2 + (0 + 0)))) with (res_sum id tr + res_sum id e1 + res_sum id e2) by lia. exact A.
       * lia.
       * lia.
@@ -325,7 +327,7 @@ Proof.
       assert (Hsel : all_len (sel id) (EPull c t3 batch bytes) = if concerns id c then Z.of_nat (length bytes) else 0).
       { destruct id; cbn; reflexivity. }
       unfold WI. rewrite !res_sum_app, !all_pulled_app. cbn [res_sum all_pulled fold_right res_n].
-      rewrite Hall1, Hall2, Hsel. repeat split.
+      rewrite Hall1, Hall2, Hsel. split; [|split; [|split]].
       * replace (res_sum id tr + (res_sum id e1 + (res_sum id e2 + (0 + 0)))) with (res_sum id tr + res_sum id e1 + res_sum id e2) by lia. exact A.
       * lia.
       * destruct (concerns id c) eqn:Ec; [specialize (Hres eq_refl)|]; lia.
@@ -344,4 +346,344 @@ Proof.
         -- assert (pull_len (sel id) T (EPull c t3 batch bytes) = 0) as ->.
            { cbn. destruct (Z.leb_spec t3 T); [lia|reflexivity]. }
            lia.
+Qed.
+
+(* ------------------------------------------------------------------ schedules *)
+Definition handler_ok (h : handler) : Prop :=
+  (forall L, htotal h = Some L -> limiter_ok L) /\ (forall L, hlocal h = Some L -> limiter_ok L).
+
+Lemma batch_nonneg h len : handler_ok h -> 0 <= len -> 0 <= batch_size h len.
+Proof.
+  intros [HT HL] Hlen. unfold batch_size.
+  assert (0 <= match htotal h with Some L => zmin len (lburst L) | None => len end) as H1.
+  { destruct (htotal h) as [L|]; [|lia]. apply zmin_glb; [lia|apply (HT L eq_refl)]. }
+  destruct (hlocal h) as [L|]; [|exact H1]. apply zmin_glb; [exact H1|apply (HL L eq_refl)].
+Qed.
+
+Lemma batch_le h len :
+  batch_size h len <= len /\ (forall L, htotal h = Some L -> batch_size h len <= lburst L)
+  /\ (forall L, hlocal h = Some L -> batch_size h len <= lburst L).
+Proof.
+  unfold batch_size. destruct (htotal h) as [LT|], (hlocal h) as [LL|]; repeat split; intros; try discriminate;
+    repeat match goal with H : Some _ = Some _ |- _ => inversion H; subst; clear H end;
+    try pose proof (zmin_le len (lburst LT));
+    try pose proof (zmin_le (zmin len (lburst LT)) (lburst LL));
+    try pose proof (zmin_le len (lburst LL));
+    try pose proof (zmin_le len (lburst L));
+    try pose proof (zmin_le (zmin len (lburst L)) (lburst LL));
+    try pose proof (zmin_le (zmin len (lburst LT)) (lburst L)); lia.
+Qed.
+
+Lemma sched_step_trace h ss acc o : exists e, snd (sched_step h ss acc o) = snd acc ++ e.
+Proof.
+  unfold sched_step. destruct (nth_error ss (oc o)) as [s|]; [|exists []; rewrite app_nil_r; reflexivity].
+  destruct (ready h s) as [rdy|]; [|exists []; rewrite app_nil_r; reflexivity].
+  destruct (read_step h (rdy + odelay o) (fst acc) o) as [w' e]. exists e. reflexivity.
+Qed.
+
+Lemma fold_trace h ss ops : forall acc, exists e, snd (fold_left (sched_step h ss) ops acc) = snd acc ++ e.
+Proof.
+  induction ops as [|o ops IH]; intro acc; cbn [fold_left]; [exists []; rewrite app_nil_r; reflexivity|].
+  destruct (IH (sched_step h ss acc o)) as [e2 H2]. destruct (sched_step_trace h ss acc o) as [e1 H1].
+  exists (e1 ++ e2). rewrite H2, H1, app_assoc. reflexivity.
+Qed.
+
+Definition reads_from (h : handler) (ss : list session) (id : limid) (t0 : Z) (ops : list op) : Prop :=
+  forall o s rdy, In o ops -> nth_error ss (oc o) = Some s -> ready h s = Some rdy ->
+                  concerns id (oc o) = true -> t0 <= rdy + odelay o.
+
+Lemma run_inv h ss id L t0 :
+  lim_of h id = Some L -> limiter_ok L -> linf L = false -> handler_ok h ->
+  forall ops w tr, WI id L t0 w tr -> Forall op_ok ops -> reads_from h ss id t0 ops ->
+    clock_ordered (snd (fold_left (sched_step h ss) ops (w, tr))) ->
+    WI id L t0 (fst (fold_left (sched_step h ss) ops (w, tr))) (snd (fold_left (sched_step h ss) ops (w, tr))).
+Proof.
+  intros Hlim Hok Hinf Hh. induction ops as [|o ops IH]; intros w tr HWI Hops Hfrom Hclk; cbn [fold_left] in *; [exact HWI|].
+  inversion Hops as [|? ? Ho Hops']; subst.
+  assert (Hfrom' : reads_from h ss id t0 ops).
+  { intros o' s rdy Hin. apply Hfrom. right; exact Hin. }
+  unfold sched_step at 2 4. unfold sched_step at 2 in Hclk.
+  destruct (nth_error ss (oc o)) as [s|] eqn:Es; [|apply IH; auto].
+  destruct (ready h s) as [rdy|] eqn:Er; [|apply IH; auto].
+  cbn [fst snd] in *.
+  destruct (read_step h (rdy + odelay o) w o) as [w' e] eqn:Ers.
+  apply IH; auto.
+  destruct (fold_trace h ss ops (w', tr ++ e)) as [e' He']. cbn [snd] in He'.
+  eapply read_step_inv; eauto.
+  - intro Hc. eapply Hfrom; eauto. left; reflexivity.
+  - apply batch_nonneg; [exact Hh|apply Ho].
+  - intros i Hi. apply (Hclk i). rewrite He'. apply in_or_app; left. apply in_or_app; right; exact Hi.
+Qed.
+
+Lemma WI_init h ss id L t0 : lim_of h id = Some L -> limiter_ok L -> WI id L t0 (init_world h ss) [].
+Proof.
+  intros Hlim Hok. pose proof (unit_pos L Hok). destruct Hok as (Hp & Hq & Hb).
+  split; [|split; [cbn; lia|split; [cbn; lia|]]].
+  - destruct id; cbn in *; rewrite Hlim; apply linv_init.
+  - intros T HT. cbn. assert (0 <= lp L * (T - t0 + 1)) by (apply Z.mul_nonneg_nonneg; lia).
+    assert (0 <= lburst L * unit L) by (apply Z.mul_nonneg_nonneg; lia). lia.
+Qed.
+
+(* the bound, for the total limiter (id = Total) and for a connection's limiter (id = Local c) *)
+Lemma throttle_bound_gen h ss ops id L t0 T :
+  lim_of h id = Some L -> linf L = false -> handler_ok h -> Forall op_ok ops ->
+  reads_from h ss id t0 ops -> clock_ordered (snd (run h ss ops)) -> t0 <= T ->
+  pulled (sel id) T (snd (run h ss ops)) * unit L <= lburst L * unit L + lp L * (T - t0 + 1).
+Proof.
+  intros Hlim Hinf Hh Hops Hfrom Hclk HT.
+  assert (Hok : limiter_ok L) by (destruct Hh as [HT' HL]; destruct id; cbn in Hlim; auto).
+  pose proof (run_inv h ss id L t0 Hlim Hok Hinf Hh ops _ _ (WI_init h ss id L t0 Hlim Hok) Hops Hfrom Hclk) as (_ & _ & _ & Hb).
+  apply Hb. exact HT.
+Qed.
+
+(* ------------------------------------------------------------------ Provision *)
+Lemma provision_ok c h : 0 < rq c -> 0 < trq c -> provision c = Some h -> handler_ok h /\ hlatency h = latency c.
+Proof.
+  intros Hrq Htq. unfold provision.
+  destruct (Z.ltb_spec (rp c) 0) as [H1|H1]; [discriminate|].
+  destruct (Z.ltb_spec (trp c) 0) as [H2|H2]; [discriminate|].
+  set (rb := if (0 <? rp c) && (rburst c =? 0) then default_burst (rp c) (rq c) else rburst c).
+  set (tb := if (0 <? trp c) && (tburst c =? 0) then default_burst (trp c) (trq c) else tburst c).
+  destruct (Z.ltb_spec rb 0) as [H3|H3]; [discriminate|].
+  destruct (Z.ltb_spec tb 0) as [H4|H4]; [discriminate|].
+  intro H; inversion H; subst h; clear H. split; [|reflexivity]. split; cbn; intros L HL.
+  - destruct ((0 <? trp c) || (0 <? tb)); inversion HL; subst L. repeat split; cbn; lia.
+  - destruct ((0 <? rp c) || (0 <? rb)); inversion HL; subst L. repeat split; cbn; lia.
+Qed.
+
+(* a configured rate always comes with a positive burst (default: int(rate) + 1) *)
+Lemma provision_burst_pos c h L : 0 < rq c -> 0 < trq c -> provision c = Some h ->
+  (hlocal h = Some L \/ htotal h = Some L) -> 0 < lp L -> 0 < lburst L.
+Proof.
+  intros Hrq Htq. unfold provision.
+  destruct (Z.ltb_spec (rp c) 0) as [H1|H1]; [discriminate|].
+  destruct (Z.ltb_spec (trp c) 0) as [H2|H2]; [discriminate|].
+  set (rb := if (0 <? rp c) && (rburst c =? 0) then default_burst (rp c) (rq c) else rburst c).
+  set (tb := if (0 <? trp c) && (tburst c =? 0) then default_burst (trp c) (trq c) else tburst c).
+  destruct (Z.ltb_spec rb 0) as [H3|H3]; [discriminate|].
+  destruct (Z.ltb_spec tb 0) as [H4|H4]; [discriminate|].
+  intro H; inversion H; subst h; clear H. cbn.
+  assert (Hdb : forall p q, 0 <= p -> 0 < q -> 0 < default_burst p q).
+  { intros p q Hp Hq. unfold default_burst. pose proof (Z.div_pos p q Hp Hq). lia. }
+  intros [HL|HL] Hpos.
+  - destruct ((0 <? rp c) || (0 <? rb)); inversion HL; subst L; cbn in *.
+    unfold rb in *. destruct (Z.ltb_spec 0 (rp c)); [|lia]. destruct (Z.eqb_spec (rburst c) 0); cbn in *; [apply Hdb; lia|lia].
+  - destruct ((0 <? trp c) || (0 <? tb)); inversion HL; subst L; cbn in *.
+    unfold tb in *. destruct (Z.ltb_spec 0 (trp c)); [|lia]. destruct (Z.eqb_spec (tburst c) 0); cbn in *; [apply Hdb; lia|lia].
+Qed.
+
+(* ------------------------------------------------------------------ every pull: who, when, how much *)
+Lemma lim_phase_events Lo id st t batch st' r e x :
+  lim_phase Lo id st t batch = (st', r, e) -> In x e -> (exists i, x = EBack i) \/ (exists i t n, x = ERes i t n).
+Proof.
+  unfold lim_phase. destruct Lo as [L|]; [|intro H; inversion H; intros []].
+  destruct (wait_n L st t batch) as [s r0]. intro H; inversion H; subst. intro Hin.
+  apply in_app_or in Hin. destruct Hin as [Hin|Hin].
+  - unfold back_ev in Hin. destruct (t <? last st); [|destruct Hin]. destruct Hin as [<-|[]]. left; eauto.
+  - destruct r; cbn in Hin; try tauto; destruct Hin as [<-|[]]; right; eauto.
+Qed.
+
+Lemma read_step_pull h t1 w o w' e c t b bs :
+  handler_ok h -> op_ok o -> read_step h t1 w o = (w', e) -> In (EPull c t b bs) e ->
+  c = oc o /\ t1 <= t /\ b = batch_size h (olen o) /\ Z.of_nat (length bs) <= b.
+Proof.
+  intros Hh (Holen & Hodel & Hj2 & Hj3). pose proof (batch_nonneg h (olen o) Hh Holen) as Hbatch.
+  unfold read_step. set (batch := batch_size h (olen o)) in *.
+  destruct (lim_phase (htotal h) Total (wtotal w) t1 batch) as [[stT r1] e1] eqn:E1.
+  assert (N1 : ~ In (EPull c t b bs) e1).
+  { intro Hin. destruct (lim_phase_events _ _ _ _ _ _ _ _ _ E1 Hin) as [[i Hx]|[i [t' [n Hx]]]]; discriminate. }
+  destruct r1 as [| |d1].
+  - intro H; inversion H; subst. intro Hin. apply in_app_or in Hin. destruct Hin as [Hin|[Hin|[]]]; [tauto|discriminate].
+  - intro H; inversion H; subst. intro Hin. apply in_app_or in Hin. destruct Hin as [Hin|[Hin|[]]]; [tauto|discriminate].
+  - pose proof (lim_phase_nonneg _ _ _ _ _ _ _ _ E1) as Hd1.
+    destruct (lim_phase (hlocal h) (Local (oc o)) (wlocal w (oc o)) (t1 + d1 + oj2 o) batch) as [[stL r2] e2] eqn:E2.
+    assert (N2 : ~ In (EPull c t b bs) e2).
+    { intro Hin. destruct (lim_phase_events _ _ _ _ _ _ _ _ _ E2 Hin) as [[i Hx]|[i [t' [n Hx]]]]; discriminate. }
+    destruct r2 as [| |d2].
+    + intro H; inversion H; subst. intro Hin. apply in_app_or in Hin. destruct Hin as [Hin|Hin]; [tauto|].
+      apply in_app_or in Hin. destruct Hin as [Hin|[Hin|[]]]; [tauto|discriminate].
+    + intro H; inversion H; subst. intro Hin. apply in_app_or in Hin. destruct Hin as [Hin|Hin]; [tauto|].
+      apply in_app_or in Hin. destruct Hin as [Hin|[Hin|[]]]; [tauto|discriminate].
+    + pose proof (lim_phase_nonneg _ _ _ _ _ _ _ _ E2) as Hd2.
+      intro H; inversion H; subst. intro Hin. apply in_app_or in Hin. destruct Hin as [Hin|Hin]; [tauto|].
+      apply in_app_or in Hin. destruct Hin as [Hin|[Hin|[]]]; [tauto|]. inversion Hin; subst.
+      repeat split; try lia.
+      set (rest := winner w (oc o)).
+      pose proof (zmin_le batch (Z.of_nat (length rest))) as Hzl.
+      assert (Hz0 : 0 <= zmin batch (Z.of_nat (length rest))) by (apply zmin_glb; lia).
+      pose proof (clip_range (oavail o) _ Hz0) as Hk.
+      pose proof (firstn_len_le (clip (oavail o) 0 (zmin batch (Z.of_nat (length rest)))) rest (proj1 Hk)). lia.
+Qed.
+
+Lemma fold_pull h ss : handler_ok h -> forall ops acc c t b bs, Forall op_ok ops ->
+  In (EPull c t b bs) (snd (fold_left (sched_step h ss) ops acc)) ->
+  In (EPull c t b bs) (snd acc) \/
+  exists o s rdy, In o ops /\ c = oc o /\ nth_error ss c = Some s /\ ready h s = Some rdy /\
+                  rdy + odelay o <= t /\ b = batch_size h (olen o) /\ Z.of_nat (length bs) <= b.
+Proof.
+  intro Hh. induction ops as [|o ops IH]; intros acc c t b bs Hops Hin; cbn [fold_left] in Hin; [left; exact Hin|].
+  inversion Hops as [|? ? Ho Hops']; subst.
+  destruct (IH _ _ _ _ _ Hops' Hin) as [Hacc|(o' & s & rdy & Hio & Hrest)].
+  - unfold sched_step in Hacc.
+    destruct (nth_error ss (oc o)) as [s|] eqn:Es; [|left; exact Hacc].
+    destruct (ready h s) as [rdy|] eqn:Er; [|left; exact Hacc].
+    destruct (read_step h (rdy + odelay o) (fst acc) o) as [w' e] eqn:Ers. cbn [snd] in Hacc.
+    apply in_app_or in Hacc. destruct Hacc as [Hacc|Hacc]; [left; exact Hacc|right].
+    destruct (read_step_pull _ _ _ _ _ _ _ _ _ _ Hh Ho Ers Hacc) as (-> & Ht & Hb & Hl).
+    exists o, s, rdy. repeat split; auto. left; reflexivity.
+  - right. exists o', s, rdy. split; [right; exact Hio|exact Hrest].
+Qed.
+
+Lemma ready_after h s rdy : session_ok s -> ready h s = Some rdy -> sstart s + Z.max 0 (hlatency h) <= rdy.
+Proof.
+  intros [Hs Hj]. unfold ready. destruct (Z.ltb_spec 0 (hlatency h)) as [Hl|Hl].
+  - destruct (scancel s); [discriminate|]. intro H; inversion H; lia.
+  - intro H; inversion H; lia.
+Qed.
+
+(* Handle: no byte is pulled from a connection before its latency has passed; connections
+   cancelled during the wait are never read; every inner Read is for at most batch bytes *)
+Lemma first_read_after_latency_gen h ss ops c t b bs :
+  handler_ok h -> Forall op_ok ops -> Forall session_ok ss ->
+  In (EPull c t b bs) (snd (run h ss ops)) ->
+  exists s, nth_error ss c = Some s /\ (0 < hlatency h -> scancel s = false) /\
+            sstart s + Z.max 0 (hlatency h) <= t.
+Proof.
+  intros Hh Hops Hss Hin. unfold run in Hin.
+  destruct (fold_pull h ss Hh ops _ _ _ _ _ Hops Hin) as [[]|(o & s & rdy & Hio & -> & Hs & Hr & Ht & _)].
+  exists s. split; [exact Hs|]. split.
+  - intro Hl. unfold ready in Hr. destruct (Z.ltb_spec 0 (hlatency h)) as [Hl'|Hl']; [|lia]. destruct (scancel s); [discriminate|reflexivity].
+  - assert (session_ok s) as Hsok by (eapply Forall_forall; [exact Hss|eapply nth_error_In; eauto]).
+    pose proof (ready_after h s rdy Hsok Hr). assert (0 <= odelay o) by (eapply Forall_forall in Hops; [apply Hops|exact Hio]). lia.
+Qed.
+
+Lemma read_within_batch_gen h ss ops c t b bs :
+  handler_ok h -> Forall op_ok ops -> In (EPull c t b bs) (snd (run h ss ops)) ->
+  Z.of_nat (length bs) <= b /\ (forall L, htotal h = Some L -> b <= lburst L) /\ (forall L, hlocal h = Some L -> b <= lburst L).
+Proof.
+  intros Hh Hops Hin. unfold run in Hin.
+  destruct (fold_pull h ss Hh ops _ _ _ _ _ Hops Hin) as [[]|(o & s & rdy & Hio & -> & Hs & Hr & Ht & -> & Hl)].
+  split; [exact Hl|]. pose proof (batch_le h (olen o)) as (_ & A & B). split; assumption.
+Qed.
+
+(* ------------------------------------------------------------------ stream identity *)
+Lemma stream_of_app c a b : stream_of c (a ++ b) = stream_of c a ++ stream_of c b.
+Proof.
+  induction a as [|x a IH]; cbn; [reflexivity|]. destruct x; try exact IH.
+  destruct (Nat.eqb c0 c); [rewrite IH, app_assoc; reflexivity|exact IH].
+Qed.
+
+Lemma lim_phase_stream Lo id st t batch st' r e c :
+  lim_phase Lo id st t batch = (st', r, e) -> stream_of c e = [].
+Proof.
+  unfold lim_phase. destruct Lo as [L|]; [|intro H; inversion H; reflexivity].
+  destruct (wait_n L st t batch) as [s r0]. intro H; inversion H; subst.
+  rewrite stream_of_app. unfold back_ev. destruct (t <? last st); destruct r; reflexivity.
+Qed.
+
+Lemma read_step_stream h t1 w o w' e c :
+  read_step h t1 w o = (w', e) -> stream_of c e ++ winner w' c = winner w c.
+Proof.
+  unfold read_step.
+  destruct (lim_phase (htotal h) Total (wtotal w) t1 (batch_size h (olen o))) as [[stT r1] e1] eqn:E1.
+  pose proof (lim_phase_stream _ _ _ _ _ _ _ _ c E1) as S1.
+  destruct r1 as [| |d1].
+  - intro H; inversion H; subst. rewrite stream_of_app, S1. reflexivity.
+  - intro H; inversion H; subst. rewrite stream_of_app, S1. reflexivity.
+  - destruct (lim_phase (hlocal h) (Local (oc o)) (wlocal w (oc o)) (t1 + d1 + oj2 o) (batch_size h (olen o))) as [[stL r2] e2] eqn:E2.
+    pose proof (lim_phase_stream _ _ _ _ _ _ _ _ c E2) as S2.
+    destruct r2 as [| |d2]; intro H; inversion H; subst; rewrite !stream_of_app, S1, S2; cbn [app stream_of winner]; try reflexivity.
+    destruct (Nat.eqb (oc o) c) eqn:Ec.
+    + apply Nat.eqb_eq in Ec. subst c. rewrite upd_same, app_nil_r. apply firstn_skipn.
+    + rewrite upd_other by (rewrite Nat.eqb_sym; exact Ec). reflexivity.
+Qed.
+
+Lemma fold_stream h ss c : forall ops acc,
+  stream_of c (snd (fold_left (sched_step h ss) ops acc)) ++ winner (fst (fold_left (sched_step h ss) ops acc)) c
+  = stream_of c (snd acc) ++ winner (fst acc) c.
+Proof.
+  induction ops as [|o ops IH]; intro acc; cbn [fold_left]; [reflexivity|]. rewrite IH.
+  unfold sched_step. destruct (nth_error ss (oc o)) as [s|]; [|reflexivity].
+  destruct (ready h s) as [rdy|]; [|reflexivity].
+  destruct (read_step h (rdy + odelay o) (fst acc) o) as [w' e] eqn:Ers. cbn [fst snd].
+  rewrite stream_of_app, <- app_assoc, (read_step_stream _ _ _ _ _ _ c Ers). reflexivity.
+Qed.
+
+(* what the next handler received from connection c, followed by what the inner connection
+   still holds, is the inner connection's byte stream: nothing lost, duplicated or reordered *)
+Lemma throttle_identity_gen h ss ops c s :
+  nth_error ss c = Some s ->
+  stream_of c (snd (run h ss ops)) ++ winner (fst (run h ss ops)) c = sdata s.
+Proof. intro Hs. unfold run. rewrite fold_stream. cbn. rewrite Hs. reflexivity. Qed.
+
+(* ------------------------------------------------------------------ statements used by props/C17.v *)
+(* t0 is at or before every Read call on connection c (e.g. the instant of its first Read) *)
+Definition conn_reads_from (h : handler) (ss : list session) (c : nat) (t0 : Z) (ops : list op) : Prop :=
+  forall o s rdy, In o ops -> oc o = c -> nth_error ss c = Some s -> ready h s = Some rdy -> t0 <= rdy + odelay o.
+(* t0 is at or before every Read call on any connection of the handler *)
+Definition all_reads_from (h : handler) (ss : list session) (t0 : Z) (ops : list op) : Prop :=
+  forall o s rdy, In o ops -> nth_error ss (oc o) = Some s -> ready h s = Some rdy -> t0 <= rdy + odelay o.
+
+Lemma throttle_bound_conn cfg h ss ops c L t0 T :
+  0 < rq cfg -> 0 < trq cfg -> provision cfg = Some h ->
+  hlocal h = Some L -> linf L = false ->
+  Forall op_ok ops -> clock_ordered (snd (run h ss ops)) ->
+  conn_reads_from h ss c t0 ops -> t0 <= T ->
+  pulled (Some c) T (snd (run h ss ops)) * unit L <= lburst L * unit L + lp L * (T - t0 + 1).
+Proof.
+  intros Hrq Htq Hprov HL Hinf Hops Hclk Hfrom HT.
+  destruct (provision_ok cfg h Hrq Htq Hprov) as [Hh _].
+  apply (throttle_bound_gen h ss ops (Local c) L t0 T HL Hinf Hh Hops); auto.
+  intros o s rdy Hin Hs Hr Hc. cbn in Hc. apply Nat.eqb_eq in Hc. eapply Hfrom; eauto. rewrite <- Hc. exact Hs.
+Qed.
+
+Lemma throttle_bound_total cfg h ss ops L t0 T :
+  0 < rq cfg -> 0 < trq cfg -> provision cfg = Some h ->
+  htotal h = Some L -> linf L = false ->
+  Forall op_ok ops -> clock_ordered (snd (run h ss ops)) ->
+  all_reads_from h ss t0 ops -> t0 <= T ->
+  pulled None T (snd (run h ss ops)) * unit L <= lburst L * unit L + lp L * (T - t0 + 1).
+Proof.
+  intros Hrq Htq Hprov HL Hinf Hops Hclk Hfrom HT.
+  destruct (provision_ok cfg h Hrq Htq Hprov) as [Hh _].
+  apply (throttle_bound_gen h ss ops Total L t0 T HL Hinf Hh Hops); auto.
+  intros o s rdy Hin Hs Hr _. eapply Hfrom; eauto.
+Qed.
+
+Lemma first_read_after_latency cfg h ss ops c t b bs :
+  0 < rq cfg -> 0 < trq cfg -> provision cfg = Some h ->
+  Forall op_ok ops -> Forall session_ok ss ->
+  In (EPull c t b bs) (snd (run h ss ops)) ->
+  exists s, nth_error ss c = Some s /\ (0 < latency cfg -> scancel s = false) /\
+            sstart s + Z.max 0 (latency cfg) <= t.
+Proof.
+  intros Hrq Htq Hprov Hops Hss Hin. destruct (provision_ok cfg h Hrq Htq Hprov) as [Hh Hl]. rewrite <- Hl.
+  eapply first_read_after_latency_gen; eauto.
+Qed.
+
+Lemma read_within_batch cfg h ss ops c t b bs :
+  0 < rq cfg -> 0 < trq cfg -> provision cfg = Some h -> Forall op_ok ops ->
+  In (EPull c t b bs) (snd (run h ss ops)) ->
+  Z.of_nat (length bs) <= b /\ (forall L, htotal h = Some L -> b <= lburst L) /\ (forall L, hlocal h = Some L -> b <= lburst L).
+Proof.
+  intros Hrq Htq Hprov Hops Hin. destruct (provision_ok cfg h Hrq Htq Hprov) as [Hh _].
+  eapply read_within_batch_gen; eauto.
+Qed.
+
+Lemma clock_ordered_dec tr : existsb is_back tr = false -> clock_ordered tr.
+Proof.
+  intros H id Hin. assert (existsb is_back tr = true); [|congruence].
+  apply existsb_exists. exists (EBack id). split; [exact Hin|reflexivity].
+Qed.
+
+(* the truncation of durationFromTokens makes the bound hold with one nanosecond of slack only:
+   at limits above one token per nanosecond two tokens can be had at the same instant *)
+Lemma exact_bound_needs_slack :
+  exists L st1 st2 d1 d2,
+    limiter_ok L /\ linf L = false /\
+    wait_n L (new_limiter L) 0 1 = (st1, WSleep d1) /\ wait_n L st1 0 1 = (st2, WSleep d2) /\
+    d1 = 0 /\ d2 = 0 /\ lburst L = 1.
+Proof.
+  exists {| lp := 1500000000; lq := 1; lburst := 1; linf := false |}.
+  eexists. eexists. exists 0, 0. repeat split; try (cbn; lia); vm_compute; reflexivity.
 Qed.
